@@ -278,3 +278,56 @@ func VerifC02Embedded(tmpl string, viaMap, allowUTF8 bool) {
 	}
 	vrt.Assert("C02/embedded/output-is-one-valid-value", zzspec.ValidText(out, !allowUTF8, true, 10000))
 }
+
+// VerifC02MapKeys: values in object-name position that are not strings or numbers - reached
+// through pointer keys, interface keys and caller-supplied key functions - never yield
+// malformed output: an error, or valid JSON. kind 0 map[*[]int8]V with an empty slice behind
+// the key; 1 the same with a nil slice; 2 map[any]V holding such a pointer; 3 a pointer to an
+// empty map as key; 4 a pointer to an empty struct; 5 map[*[]any]V; 6 key function mapping
+// two distinct int8 keys to solver-chosen one-byte names, marshaled twice with the same
+// Marshalers value (second call: warm per-type cache).
+func VerifC02MapKeys(kind int) {
+	var v any
+	var opts []Options
+	calls := 1
+	switch kind {
+	case 0:
+		e := []int8{}
+		v = map[*[]int8]string{&e: "v"}
+	case 1:
+		var e []int8
+		v = map[*[]int8]int8{&e: 1}
+	case 2:
+		e := []int8{}
+		v = map[any]bool{&e: true}
+	case 3:
+		e := map[string]int8{}
+		v = map[*map[string]int8]int8{&e: 1}
+	case 4:
+		e := struct{}{}
+		v = map[*struct{}]int8{&e: 1}
+	case 5:
+		e := []any{}
+		v = []any{1, map[*[]any][]any{&e: {}}}
+	default:
+		n1, n2 := vrt.Byte("n1"), vrt.Byte("n2")
+		vrt.Assume(n1 >= 'a' && n1 <= 'c' && n2 >= 'a' && n2 <= 'c')
+		opts = []Options{WithMarshalers(MarshalFunc(func(k int8) ([]byte, error) {
+			if k == 1 {
+				return []byte{'"', n1, '"'}, nil
+			}
+			return []byte{'"', n2, '"'}, nil
+		}))}
+		v = []map[int8]bool{{1: true, 2: false}, {1: false, 2: true}}
+		calls = 2
+	}
+	for i := 0; i < calls; i++ {
+		out, err := Marshal(v, opts...)
+		if err != nil {
+			vrt.Cover("error")
+			continue
+		}
+		vrt.Cover("success")
+		vrt.Assert("C02/mapkeys/output-is-one-valid-value", zzspec.ValidText(out, true, true, 10000))
+	}
+}
